@@ -22,6 +22,8 @@ LOOKALIKE_STRS = [
     "0x10", "1_000", "+5", "Infinity", "P1D", "00:00:00+05:30", "[", "nul", "12345678-1234-5678-1234-567812345678",
     # text that begins with U+FEFF (EF BB BF on the wire): an ordinary character as far as the library is concerned
     "\ufeff", "\ufeffhello", "\ufeff12", "\ufeff[1, 2]", "\ufeff{\"a\": 1}", "a\ufeffb",
+    # numbers as Python's text parsers read them beyond ASCII: other decimal digits, Unicode white space
+    "\u0661\u0662", "\uff11\uff12", "\u0967\u0968.\u096b", "\u00a012", "12\u2003", "\x8512", "\u0663.\u0665",
 ]
 
 
